@@ -20,7 +20,7 @@ import logging
 import os
 import re
 
-from simkit import world
+from simkit import forkenum, world
 from simkit.sim import Violation
 
 from . import histsim, storesim
@@ -106,6 +106,7 @@ def config(tier):
     return {"budget_s": 50, "run_timeout": 180, "selftest": 6}
 
 
+HANG_TIMEOUT = 25.0
 REGIONS = ["header", "sha", "action", "meta", "base64", "patch", "any", "any"]
 
 
@@ -310,6 +311,34 @@ def compare_revisions(sim, src_repo, tgt_repo, revids, strict, sig, what):
     return absent
 
 
+def cause(e, mh, carried):
+    """Stable label for a failed write / clean install: the reported defect class it falls
+    into, else the risky feature classes the carried revisions contain."""
+    msg = str(e)
+    if "Failed to parse offset" in msg:
+        return "negative-half-hour-timezone"
+    if "get_parent_map(None)" in msg:
+        return "null-base"
+    if "is not an instance of 'Inventory'" in msg:
+        return "xml-source-into-chk-target"
+    labels = set()
+    for r in carried:
+        spec = mh.revs[r]
+        tree = mh.tree(spec["parents"][0]) if spec["parents"] else {}
+        for a in spec["actions"]:
+            if a[0] == "retype":
+                labels.add("kind-change")
+            elif a[0] in ("rename", "swap"):
+                for q in [a[1]] + ([a[2]] if a[0] == "swap" else []):
+                    if any(x != q and histsim.inside(q, x) for x in tree):
+                        labels.add("dir-rename")
+            tree = histsim.apply_actions(tree, [a])
+        vals = list((spec.get("props") or {}).values()) + (["\n".join(spec["authors"])] if spec.get("authors") else [])
+        if any("\n" in v for v in vals):
+            labels.add("multiline-property")
+    return "+".join(sorted(labels)) or "-"
+
+
 def fresh_target(name, fmt, src_repo, base):
     """A repository on a new simulated store holding exactly the ancestry of `base`."""
     url = world.new_store(name)
@@ -407,7 +436,7 @@ def _bundle_part(sim, plan, mh, srepo, bfmt, src_fmt, tgt_fmt, strict, read_bund
     except Exception as e:  # noqa: BLE001
         import traceback
 
-        sim.fail("write", ["write"] + sigbase + [type(e).__name__], f"write_bundle({target}, base={base}, format={bfmt}) failed: {type(e).__name__}: {e}\n{traceback.format_exc()[-1500:]}")
+        sim.fail("write", ["write", f"bundle-{bfmt}", type(e).__name__, cause(e, mh, carried)], f"[{src_fmt}->{tgt_fmt}] write_bundle({target}, base={base}, format={bfmt}) failed: {type(e).__name__}: {e}\n{traceback.format_exc()[-1500:]}")
     data = out.getvalue()
     import hashlib
 
@@ -420,7 +449,7 @@ def _bundle_part(sim, plan, mh, srepo, bfmt, src_fmt, tgt_fmt, strict, read_bund
     except Exception as e:  # noqa: BLE001
         import traceback
 
-        sim.fail("install", ["install"] + sigbase + [type(e).__name__], f"installing the untouched {bfmt} bundle ({carried}, base {base}) failed: {type(e).__name__}: {e}\n{traceback.format_exc()[-1800:]}")
+        sim.fail("install", ["install", f"bundle-{bfmt}", type(e).__name__, cause(e, mh, carried)], f"[{src_fmt}->{tgt_fmt}] installing the untouched {bfmt} bundle ({carried}, base {base}) failed: {type(e).__name__}: {e}\n{traceback.format_exc()[-1800:]}")
     if got_target != target.encode():
         sim.fail("install_target", ["install_target"] + sigbase, f"install_revisions returned {got_target}, the bundle target is {target}")
     storesim.clear_caches()
@@ -445,10 +474,61 @@ def _bundle_part(sim, plan, mh, srepo, bfmt, src_fmt, tgt_fmt, strict, read_bund
         if bad == data:
             continue
         ntrial += 1
-        _corrupt_trial(sim, mh, srepo, bad, desc, i, tgt_fmt, base, carried, strict, sigbase, read_bundle)
+        if bfmt == "4" and _may_stall(bad):
+            # the container reader (bzrformats.pack, Rust) can spin for ever on a stream that
+            # ends early and cannot be interrupted from Python: run the trial in a forked copy
+            res = forkenum.run_forked(lambda bad=bad, desc=desc, i=i: _forked_trial(sim, mh, srepo, bad, desc, i, tgt_fmt, base, carried, strict, sigbase, read_bundle), timeout=HANG_TIMEOUT)
+            if "_timeout" in res:
+                sim.event("trial", i, desc, "HANG")
+                sim.fail("corrupt_hang", ["corrupt_hang", "bundle-4", "streaming-install-never-returns"], f"corruption {desc} of a v4 bundle ({len(data)} bytes, carried {carried}): read_bundle(...).install_revisions(repo) did not return within {HANG_TIMEOUT}s (busy loop in BundleReader.iter_records -> pack.iter_records_from_file)")
+            if "_error" in res:
+                raise RuntimeError(res["_error"])
+            for ev in res["events"]:
+                sim.event(*ev)
+            for k, n_ in res["probes"].items():
+                sim.probe(k, n_)
+            if res.get("violation"):
+                o, sg, dt = res["violation"]
+                sim.fail(o, sg, dt)
+        else:
+            _corrupt_trial(sim, mh, srepo, bad, desc, i, tgt_fmt, base, carried, strict, sigbase, read_bundle)
     sim.notes["evaluations"] = sim.notes.get("evaluations", 0) + 1 + ntrial
     if ntrial and (len(carried) >= 2 or feats & {"merge", "rename", "swap", "retype", "chmod", "exec", "add-symlink", "binary"}):
         sim.nontrivial = True
+
+
+def _may_stall(bad):
+    """True if the bz2 body of a v4 bundle, fed line by line as BundleReader.iter_decode does,
+    runs out without an error before its end-of-stream marker.  Such a stream is the input on
+    which the streaming install was seen to spin; the trial is then run in a forked copy with
+    a timeout (a fork per trial would cost seconds on this machine)."""
+    import bz2
+
+    f = io.BytesIO(bad)
+    f.readline()
+    f.readline()
+    d = bz2.BZ2Decompressor()
+    try:
+        for line in f:
+            d.decompress(line)
+    except EOFError:
+        return False
+    except Exception:  # noqa: BLE001
+        return False
+    return not d.eof
+
+
+def _forked_trial(sim, *args):
+    n0 = len(sim.log)
+    p0 = dict(sim.probes)
+    out = {}
+    try:
+        _corrupt_trial(sim, *args)
+    except Violation as v:
+        out["violation"] = [v.oracle, v.signature, str(v.detail)[:3000]]
+    out["events"] = [list(e) for e in sim.log[n0:]]
+    out["probes"] = {k: n_ - p0.get(k, 0) for k, n_ in sim.probes.items() if n_ != p0.get(k, 0)}
+    return out
 
 
 def _corrupt_trial(sim, mh, srepo, bad, desc, i, tgt_fmt, base, carried, strict, sigbase, read_bundle):
@@ -557,7 +637,7 @@ def _directive_part(sim, plan, mh, sb, src_fmt, tgt_fmt, strict):
     except Exception as e:  # noqa: BLE001
         import traceback
 
-        sim.fail("directive_install", ["directive_install"] + sigbase + [type(e).__name__], f"install_revisions of the parsed directive failed: {type(e).__name__}: {e}\n{traceback.format_exc()[-1500:]}")
+        sim.fail("directive_install", ["directive_install", type(e).__name__, cause(e, mh, carried)], f"[{src_fmt}->{tgt_fmt}, {sigbase[2]}] install_revisions of the parsed directive failed: {type(e).__name__}: {e}\n{traceback.format_exc()[-1500:]}")
     if got != target.encode():
         sim.fail("directive_install", ["directive_install"] + sigbase + ["target"], f"install_revisions returned {got} for {target}")
     absent = compare_revisions(sim, srepo, Branch.open(histsim.scratch("submit1")).repository, carried, strict, ["directive_install"] + sigbase, "directive install")
